@@ -110,6 +110,13 @@ def inject(cfg, fault):
               'specific_inverted_range': {'type': 'numeric_bytecode', 'bytecode': {'size': 4, 'min': 7, 'max': 0}},
               'specific_unknown_operand_type': {'type': 'no_such_type', 'bytecode': {'value': 1, 'size': 4}}}[fault]
         cfg['instructions']['unused'] = {'bytecode': {'value': 9, 'size': 4}, 'operands': {'count': 1, 'specific_operands': {'only': {'list': {'sx': op}}}}}
+    elif fault == 'macro_count_mismatch':
+        # the same count / list faults in a macro the program never uses
+        cfg.setdefault('macros', {})['inc2'] = [{'operands': {'count': 2, 'operand_sets': {'list': ['imm8']}}, 'instructions': ['ld @ARG(0)']}]
+    elif fault == 'macro_count_smaller_than_list':
+        cfg.setdefault('macros', {})['inc2'] = [{'operands': {'count': 1, 'operand_sets': {'list': ['imm8', 'imm8']}}, 'instructions': ['ld @ARG(0)']}]
+    elif fault == 'macro_unknown_operand_set':
+        cfg.setdefault('macros', {})['inc2'] = [{'operands': {'count': 1, 'operand_sets': {'list': ['nosuchset']}}, 'instructions': ['ld @ARG(0)']}]
     elif fault == 'macro_keyword':
         cfg.setdefault('macros', {})['zero'] = [{'instructions': ['nop']}]
     elif fault == 'macro_same_as_instruction':
@@ -150,7 +157,9 @@ def build(e):
     else:
         cfg['general']['identifier'] = {'name': 'genisa', 'version': vtext(s['iv'])}
         lang = {'same': 'genisa', 'other': 'otherisa', 'prefix': 'gen', 'suffix': 'isa', 'infix': 'enis', 'longer': 'genisa2', 'empty': ''}[s['name']]
-        req = f'#require "{lang} {s["op"]} {vtext(s["v"])}"' if s['op'] else f'#require "{lang}"'
+        # blanks around the comparison operator of a requirement carry no meaning: four layouts in rotation
+        g1, g2 = [(' ', ' '), ('', ''), (' ', ''), ('  ', '  ')][len(json.dumps(s, sort_keys=True)) % 4]
+        req = f'#require "{lang}{g1}{s["op"]}{g2}{vtext(s["v"])}"' if s['op'] else f'#require "{lang}"'
         src = ('#require "genisa"\n' if s['kind'] == 'require2' else '') + req + '\n' + src
     text = json.dumps(cfg, indent=1) if name.endswith('.json') else isagen.dump(cfg)
     return {'config': text, 'config_name': name, 'files': {'main.asm': src}}
